@@ -7,20 +7,34 @@ TEXT = {
  'C01': 'Verus proves, for every configuration, size, engine and history, that decode returns exactly the reference erasure decoding dec_*_ref of what was given and encode the reference encoding enc_*_ref (R-layer), and that the reference decoder applied to any original_count-or-more received shards of a reference codeword returns every missing original, for both rates and the rule-selected default (M3: LCH basis as polynomials, derivative lemma, locator, degree count). The native all-subsets round trips remain as an independent cross-check.',
  'C02': 'Verus proves encode == enc_high_ref / enc_low_ref / rule-selected (FFT/IFFT formula over GF(2^16) from first principles) for all inputs and histories, and that these reference encoders equal the closed-form scaled Cauchy matrix of the property statement slot by slot (M2: LCH basis = polynomials, interpolation uniqueness, Lagrange form on aligned cosets). The native closed-form oracle remains as an independent cross-check.',
  'C03': 'One Engine trait contract against one reference spec; every engine implementation (Naive, NoSimd, Ssse3, Avx2, DefaultEngine - schedules and leaf kernels) is verified against it, so they agree wherever the contract defines the output. The x86 intrinsics are an assumed byte-wise model, cross-checked natively on all (symbol, log_m) pairs; Neon (aarch64 view) is verified likewise over an assumed byte-wise model of its seven intrinsics, which cannot be cross-checked on this host.',
- 'C04': 'Byte placement (insert / undo / accessors) and slot independence (truncation commutes with every transform) are proved; sizes are unbounded in the proof.',
+ 'C04': 'Byte placement (insert / undo / accessors, short final block included) and slot independence are proved for all sizes: per single slot for the encoders (closed-form matrix over slot k only), as commutation with truncation to a prefix of slots for every transform, both encoders and the decoder core. A bounded native stand-in compares any-size coding on every engine with slot-by-slot 2-byte coding.',
  'C05': 'Every result is proved equal to a function of the configuration and the shards added this round (orig_sv / received positions only); stale work memory is universally quantified in the proof.',
  'C06': 'Exact error values, Ok on valid use and absence of panics (overflow, index, assert!, unreachable!) are proof obligations of every public function.',
  'C07': 'Err ==> *final(self) == *old(self) is a postcondition of every fallible method, for all inputs.',
- 'C08': 'supports == README envelope formula as a spec function, proved for all usize pairs; Kani cross-checks the arithmetic loop-free.',
- 'C09': 'DefaultRate* invariants carry the tag fixed by rule_high; its enc_spec / dec_spec are the dedicated codecs\' specs under that rule.',
+ 'C08': 'supports == README envelope formula as a spec function, proved for all usize pairs; new / reset / validate proved to succeed exactly there (and to leave a work space of exactly the needed size and invariant); Kani cross-checks the arithmetic loop-free; a bounded native stand-in really encodes and decodes on the edge of the envelope.',
+ 'C09': 'DefaultRate* invariants carry the tag fixed by rule_high; its enc_spec / dec_spec are the dedicated codecs\' specs under that rule; wrappers and one-shot functions proved equal to the default-rate codec. Bounded native stand-ins run ReedSolomon* against DefaultRate* call by call and against a fresh dedicated codec chosen by the rule as the property states it.',
  'C10': 'lib::encode / lib::decode proved equal to the fold of the streaming contracts in call order (errors exact). The collection tails are verified too: the HashMap fill of decode as the unfolded for-loop over the verified RestoredOriginal::next, map(to_vec).collect() of encode as written, over a checked prophetic model of Recovery and the vstd specs of map / collect.',
  'C11': 'Decoder bookkeeping is over sets of indexes; dec_spec reads received positions only (lemma), hence order-free; the decoding theorems hold for every sufficient received set, so surplus shards cannot change the result; given originals are never exposed (accessor contracts).',
  'C12': 'Accessors, iterators and Drop against the work-space view, for all indexes.',
  'C13': 'Additivity, zero and scalar multiples (homogeneity: right-multiplications of the shift-xor field commute) of enc_high_ref / enc_low_ref proved by induction over layers and chunks, on top of the proved encode == enc_*_ref; every engine kernel is proved to be xor / multiplication by a data-independent constant.',
- 'C14': 'target_feature entry points require cpu_has(f); DefaultEngine::new / eval_poly proved to call them only under the detection result and to pick the best reported ISA, in both platform views (x86_64: AVX2 > SSSE3 > NoSimd; aarch64: Neon > NoSimd).',
+ 'C14': 'Every function compiled with #[target_feature(enable = F)] gets requires cpu_has_F() mechanically from that attribute, and every SIMD intrinsic of the model requires its instruction set; DefaultEngine::new / eval_poly proved to reach them only under the detection result and to pick the best reported ISA, in both platform views (x86_64: AVX2 > SSSE3 > NoSimd; aarch64: Neon > NoSimd). Which compiled variant produced the erasure locator is tracked by a ghost provenance tag (ran_as), so a decoder that bypasses the engine dispatch fails an obligation although its results are identical.',
  'C15': 'Primitives proved equal to their reference networks over a field defined from 0x1002D and the Cantor basis (field laws, primitivity of x mechanised); fft_ref proved to evaluate the LCH-basis polynomial at skew_delta + i and ifft_ref to be its exact inverse (M1); eval_poly_ref proved to be the sum of logs of (x xor j) over marked j != x modulo 65535 (XOR-convolution theorem, M4); all five tables proved equal to their definitions, skew = log of the normalised subspace polynomials; AVX2/SSSE3 kernels proved over a byte-wise model of the intrinsics, Neon schedules and kernels likewise in the aarch64 view.',
- 'C17': 'Allocation is not observable by the verifiers: proxy (work buffer identity, proved) plus a counting allocator natively (bounded).',
+ 'C17': 'Allocation is not observable by the verifiers. Proved: the work space a reset asks for is exactly positions x ceil(shard_bytes / 64) blocks and results borrow the work buffer (identity). Decided by a bounded native stand-in: counting allocator over rounds and non-growing resets on every engine, four configurations (long shards, low rate, many positions, tight shard-size transition), threshold one 64-byte block.',
 }
+def technique(pid, v):
+    kani = sorted(set(v.get('kani_quick') or []) | set(v.get('kani_thorough') or []))
+    nat = v.get('native') or []
+    if v.get('level', 'proof') == 'proof':
+        t = 'DECIDED BY contract-based deductive verification (Verus 0.2026.09.13 / Z3) of the real code, extracted mechanically on every run (tools/extract.py, rules R0-R23) with the contracts of contracts/overlay spliced in: every obligation of the functions this property depends on must be discharged'
+    else:
+        t = 'DECIDED BY a bounded native stand-in on the real crate (labelled bounded, not a proof); Verus contracts on the same functions are supporting obligations'
+    if kani:
+        t += '; second back end: Kani 0.68 / CBMC harnesses (' + ', '.join(kani) + ') - loop-free ones are complete, the others bounded and labelled so'
+    if nat:
+        t += '; bounded native stand-ins on the real crate (failing inputs for the replay file, cross-checks of the assumed models): ' + ', '.join(nat)
+    return t
+
+
 checks = []
 for pid, v in sorted(P.items()):
     checks.append({
@@ -32,7 +46,7 @@ for pid, v in sorted(P.items()):
         'engine': 'verus+kani+native',
         'level_claimed': {'category': v.get('level', 'proof'), 'text': TEXT[pid], 'design_ref': 'DESIGN.md section 6 (%s)' % pid},
         'level_note': 'trusted: ' + '; '.join(v.get('trusted_base', [])) + ('. NOT PROVED: ' + ' | '.join(v['not_proved']) if v.get('not_proved') else ''),
-        'technique': 'contract-based deductive verification of the extracted real code (Verus), Kani harnesses, bounded native stand-ins',
+        'technique': technique(pid, v),
     })
 m = {
  'version': 1,
